@@ -30,5 +30,8 @@ Seed10 == << Nd("FloatValueDataSource", <<E("value", 1)>>), Nd("VCtxBump", <<ES(
 \* commutative chains under a call and under a unary minus
 Seed11 == << Sw("FloatValueDataSource", <<1, 2>>, "combinatorial", FALSE, <<"abs", <<"+", <<"t">>, <<"c", 3>>>>>>),
              Sw("FloatValueDataSourceWithDefault", <<1, 2>>, "combinatorial", FALSE, <<"neg", <<"*", <<"t">>, <<"c", 2>>>>>>) >>
-AllSeeds == {Seed1, Seed2, Seed3, Seed4, Seed5, Seed6, Seed7, Seed8, Seed9, Seed10, Seed11}
+\* a commutative root whose BOTH operands are chains: (t + 1) * (2 + t), and 2*t + t*3
+Seed12 == << Sw("FloatValueDataSource", <<1, 2>>, "combinatorial", FALSE, <<"*", <<"+", <<"t">>, <<"c", 1>>>>, <<"+", <<"c", 2>>, <<"t">>>>>>),
+             Sw("FloatValueDataSourceWithDefault", <<1, 2>>, "combinatorial", FALSE, <<"+", <<"*", <<"c", 2>>, <<"t">>>>, <<"*", <<"t">>, <<"c", 3>>>>>>) >>
+AllSeeds == {Seed1, Seed2, Seed3, Seed4, Seed5, Seed6, Seed7, Seed8, Seed9, Seed10, Seed11, Seed12}
 =============================================================================
